@@ -59,7 +59,7 @@ var c17Repo = c17Params{
 		{rel: "", fn: "Engine.beginTransaction", primary: "StartTransaction", follow: []c17Follow{{"SetTransaction", "<result>"}}},
 	},
 	sessRel: "memory", sessType: "Session", sessPair: []string{"StartTransaction", "Rollback"},
-	floors: map[string]int{"C17-P1": 10, "C17-P2": 7, "C17-P3": 12, "C17-P4": 2},
+	floors: map[string]int{"C17-P1": 10, "C17-P2": 7, "C17-P2w": 4, "C17-P3": 12, "C17-P4": 2},
 }
 
 func init() {
@@ -68,10 +68,14 @@ func init() {
 		Patterns: []string{".", "./memory"},
 		Explanation: "Entry/exit protocol of transactions. Decided: (P1) every function of the engine package that calls Engine.beginTransaction has a named error result with `defer clearAutocommitOnError(ctx, &err)` registered on every path before the call, assigns the call's error and returns it before doing anything else; clearAutocommitOnError reaches clearAutocommitTransaction whenever *err != nil, and that function unsets the context transaction except for the frozen escapes (explicit transaction, autocommit off, error reading autocommit); " +
 			"(P2) TransactionCommittingIter.Close: a child-close error returns before any commit; a successful CommitTransaction is followed on every path by ctx.SetTransaction(nil); a failed one is returned; and the commit decision, folded over the three flags (implicit commit, explicit transaction = GetIgnoreAutoCommit, autocommit) under the normal-case assumptions, is: implicit ⇒ commit, autocommit ∧ ¬explicit ⇒ commit, ¬implicit ∧ explicit ⇒ no commit, ¬implicit ∧ ¬autocommit ⇒ no commit; " +
+			"(P2w) that table is the decision actually taken: the iterator fields whose value can influence a branch of Close (forward slice over go/ssa) are only the two flags and the child iterator — so the decision does not depend on what Next returned: " +
+			"after a statement that failed during execution an autocommit session still commits what the statement wrote and clears the implicit transaction (ctx.SetTransaction(nil)), exactly as after a successful one, and the next statement starts a " +
+			"new transaction with fresh table snapshots — and those fields are written only into freshly constructed iterators (composite literal, copy-and-modify, result of a constructor): every store to them, every whole-struct store through a " +
+			"*TransactionCommittingIter and every escape of their address in the declaring package (the module, were a field exported) targets an object allocated by the storing function; " +
 			"(P3) the COMMIT / ROLLBACK / START TRANSACTION executors and Engine.beginTransaction call the session's CommitTransaction / Rollback / StartTransaction, return its error, and after success always update the context (SetTransaction(nil|tx), SetIgnoreAutoCommit(false|true)); START TRANSACTION commits an open transaction first; " +
 			"(P4) memory.Session.StartTransaction and Rollback reset the same set of session-local stores.",
-		NotCovered: "isolation / visibility between sessions (aliasing of TableData), serial equivalence of overlapping transactions, savepoints, that plan-returning entry points (PrepareParsedQuery, BoundQueryPlan) leave the implicit transaction open on success for the caller's next request",
-		Technique:  "CFG must-pass-through with abstract error state + finite-domain folding of the commit decision + sibling agreement on written fields",
+		NotCovered: "writes to the iterator through reflection or unsafe, decision state kept outside the iterator (context, session), isolation / visibility between sessions (aliasing of TableData), serial equivalence of overlapping transactions, savepoints, that plan-returning entry points (PrepareParsedQuery, BoundQueryPlan) leave the implicit transaction open on success for the caller's next request",
+		Technique:  "CFG must-pass-through with abstract error state + finite-domain folding of the commit decision + sibling agreement on written fields + who-may-write over go/ssa (forward slice of field loads to branches; stores classified by freshness of the target object)",
 		Run:        func(c *Ctx) { runC17(c, c17Repo) },
 		Fixture: func(c *Ctx, fx *Prog) {
 			p := c17Params{sqlRel: "testdata/c17/sql", engineRel: "testdata/c17/engine", beginFn: "Engine.beginTransaction", clearFn: "clearAutocommitOnError", unsetFn: "clearAutocommitTransaction",
@@ -88,6 +92,9 @@ func init() {
 				"C17-P1:Engine.Prepare/begin-error",
 				"C17-P2:TransactionCommittingIter.Close/commit-then-clear",
 				"C17-P2:TransactionCommittingIter.Close/decision explicit-transaction-not-committed",
+				"C17-P2w:TransactionCommittingIter.Next/autoCommit",
+				"C17-P2w:TransactionCommittingIter.Reset/*",
+				"C17-P2w:TransactionCommittingIter.implicitFlag/implicitCommit/address",
 				"C17-P3:buildCommit/then SetIgnoreAutoCommit(false)",
 				"C17-P3:buildStartTransaction/precommit",
 				"C17-P4:Session/Rollback",
@@ -115,6 +122,7 @@ func runC17(c *Ctx, p c17Params) {
 	}
 	a.entry()
 	a.committingIter()
+	a.decisionWriters()
 	for _, ex := range p.execs {
 		a.executor(ex)
 	}
